@@ -22,6 +22,16 @@ CHECKS = {
         note="Reals for floats; erf/erfinv axiomatised (monotone, odd, inverse pair, derivative); x % w encoded with |k|<=4 periods; infinite bounds and torch/jax outside; d<=2 batch 2 quick, d<=3 batch 3 thorough.",
         ref="6/C04",
     ),
+    "C05": dict(
+        text="sampler.log_prob(z, beta) of SMCSampler, MiniPCNSMC, BlackJAXSMC and MCMCSampler equals (1-beta) Q(x) + beta (L(x)+PI(x)) + log|det dx/dz| row-wise for symbolic beta in (0,1], arbitrary pre-image/log-Jacobian (stub transform) and the real Identity/Composite transforms, with L, PI, Q uninterpreted (UF congruence exposes evaluation at the wrong point); the zero-prior => -inf and never-NaN clauses are FP-sort (Float64 and Float32) obligations over all IEEE values incl. +-inf/NaN.",
+        note="User functions and the proposal are uninterpreted functions of the coordinates; FP obligations are first decided on a sound special-value abstraction of IEEE arithmetic and bit-precisely otherwise; kernels themselves and jax tracing outside.",
+        ref="6/C05",
+    ),
+    "C09": dict(
+        text="For the real SMCSamples.resample: the probability vector handed to the generator is proportional to exp((b1-b0)(ll+lp-lq)) and sums to one, and with a symbolic index vector (one ite-select path covers all N^M index vectors) every output row equals its source row in x, log_likelihood, log_prior and log_q; new beta, requested size, parameters and dtype preserved.",
+        note="Temperatures on the grid {0,1/4,1/2,3/4,1}; N<=3 (quick) / N<=4 (thorough), d=2; generator stub; reals for floats.",
+        ref="6/C09",
+    ),
 }
 
 NA = {
